@@ -16,8 +16,8 @@ EXTENDS Naturals, Sequences, FiniteSets, TLC, SequencesExt, Json
 
 Encs == {"iso-8859-1", "iso-8859-5", "koi8-r", "utf-8"}
 \* probe character (code point) written in a node whose chosen encoding is e
-Probe(e) == CASE e \in {"iso-8859-1", "utf-8"} -> 233 [] OTHER -> 1103      \* e-acute / Cyrillic ya
-MarkEnc(m) == CASE m = "bom" -> "utf-8" [] m = "cs:iso-8859-1" -> "iso-8859-1" [] m = "cs:iso-8859-5" -> "iso-8859-5"
+Probe(e) == CASE e \in {"iso-8859-1", "utf-8"} -> 233 [] OTHER -> 1103      \* (utf-16: the Cyrillic one)      \* e-acute / Cyrillic ya
+MarkEnc(m) == CASE m = "bom" -> "utf-8" [] m = "bom16" -> "utf-16" [] m = "upper:iso-8859-1" -> "none" [] m = "cs:iso-8859-1" -> "iso-8859-1" [] m = "cs:iso-8859-5" -> "iso-8859-5"
                 [] m = "cs:koi8-r" -> "koi8-r" [] m = "cs:utf-8" -> "utf-8" [] OTHER -> "none"
 
 Chosen(n, parentEnc, override) ==
@@ -27,22 +27,24 @@ Chosen(n, parentEnc, override) ==
     ELSE IF parentEnc # "none" THEN parentEnc
     ELSE "utf-8"
 \* the root is parsed from bytes or text given by the caller
-RootEnc(r) == IF r.override # "none" THEN r.override ELSE IF r.mark # "none" THEN MarkEnc(r.mark) ELSE "utf-8"
+RootEnc(r) == IF r.override # "none" THEN r.override ELSE IF MarkEnc(r.mark) # "none" THEN MarkEnc(r.mark) ELSE "utf-8"
 \* what the root hands to its imports as "referring sheet's encoding": its @charset / override, none if it has neither
-RootParent(r) == IF r.override # "none" THEN r.override ELSE IF r.mark # "none" THEN MarkEnc(r.mark) ELSE "none"
+RootParent(r) == IF r.override # "none" THEN r.override ELSE MarkEnc(r.mark)
 
 RECURSIVE ChainEncs(_, _, _)
 ChainEncs(chain, parentEnc, override) ==
     IF chain = <<>> THEN <<>>
     ELSE LET c == Chosen(chain[1], parentEnc, override) IN <<c>> \o ChainEncs(Tail(chain), c, override)
 \* a BOM-detected UTF-8 sheet may report the codec name utf-8-sig
-SameEnc(a, b) == a = b \/ {a, b} = {"utf-8", "utf-8-sig"}
+SameEnc(a, b) == a = b \/ {a, b} = {"utf-8", "utf-8-sig"} \/ {a, b} \subseteq {"utf-16", "utf_16", "utf-16-le", "utf_16_le"}
 Loaded(chain, i) == \A j \in 1..i : chain[j].fetch = "data"
 Expect(row) == ChainEncs(row.chain, RootParent(row.root), row.root.override)
 
 ChainFailing(row, o) ==
     IF o.out # "ok" THEN "ParseReturns"
     ELSE IF o.rootenc # RootEnc(row.root) THEN "RootEncodingIsOverrideElseCharsetElseUtf8"
+    \* the serialisation of the root declares (through its @charset rule, or by having none) the encoding the sheet reports
+    ELSE IF ~SameEnc(o.rootenc2, o.rootenc) THEN "ReportedEncodingIsTheCharsetRuleOfTheSerialisation"
     ELSE IF \E i \in 1..Len(row.chain) : Loaded(row.chain, i) /\ ~o.levels[i].found THEN "ImportedSheetLoaded"
     ELSE IF \E i \in 1..Len(row.chain) : ~Loaded(row.chain, i) /\ (i = 1 \/ Loaded(row.chain, i - 1)) /\ o.levels[i].found THEN "UnavailableImportStaysEmpty"
     ELSE IF \E i \in 1..Len(row.chain) : Loaded(row.chain, i) /\ o.levels[i].probe # <<Probe(Expect(row)[i])>> THEN "ImportDecodedWithChosenEncoding"
